@@ -6,7 +6,7 @@ module M = Skmodel
 type positive = M.positive = XI of positive | XO of positive | XH
 type n = M.n = N0 | Npos of positive
 type sx = M.sx = SN of n | SB of n list | SL of sx list
-let dispatch = M.dispatch
+let dispatch = M.dispatch_all
 module N = M.N
 
 
